@@ -41,6 +41,8 @@ def shards(tier, seed):
         out.append(("jac_small_%d" % i, dict(kind="jac_small", nmax=jmax, part=i, parts=4)))
     out.append(("jac_big", dict(kind="jac_big", count=2000 if q else 30000)))
     out.append(("jac_worstcase", dict(kind="jac_worst", maxbits=1000)))
+    out.append(("sqrt_all_small_primes_residues", dict(kind="sqrt_hard", count=2 if q else 8)))
+    out.append(("jac_huge_composite", dict(kind="jac_huge", count=30 if q else 300)))
     for i in range(2 if q else 6):
         out.append(("concurrent_%d" % i, dict(kind="concurrent", runs=40 if q else 400)))
     out.append(("optimised_interpreter", dict(kind="pyopt", pmax=400 if q else 2000)))
@@ -260,6 +262,44 @@ def run(ctx, name, kind, **kw):
         for a, n, j in data["jac"]:
             ctx.case("pyopt.jacobi", key=str(n.bit_length()))
             ctx.check(j == nt.jacobi_iter(a, n), "jacobi_wrong_under_python_O", "python -O: jacobi(%d,%d)=%r" % (a, n, j), dict(a=a, n=n))
+    elif kind == "sqrt_hard":
+        # primes p = 1 (mod 8 * 3 * 5 * ... * q): by quadratic reciprocity EVERY prime up to q is a residue mod p, the classical hard
+        # case for any root finder that looks for a small non-residue; with a = small squares, their negatives, and random residues
+        for qmax in (23, 53, 131, 199):
+            M = 8
+            for pr in nt.primes_below(qmax + 1):
+                if pr > 2:
+                    M *= pr
+            found = 0
+            k = rng.randrange(1, 1 << 24)
+            while found < kw["count"]:
+                k += 1
+                p = 1 + k * M
+                if nt.is_prime(p, 4, rng):
+                    found += 1
+                    t_ = rng.randrange(2, p)
+                    for a in (1, 4, 9, 16, 25, p - 1, p - 4, p - 9, 2, 3, 5, 7, 131, t_ * t_ % p, (p - t_ * t_) % p):
+                        check_sqrt(ctx, a % p, p, extra="all_primes_to_%d_are_residues" % qmax)
+    elif kind == "jac_huge":
+        # composite moduli far larger than any curve value, with known factorisation (products of Mersenne primes)
+        M = [(1 << e) - 1 for e in (127, 521, 607, 1279, 2203)]
+        mods = [(M[1] * M[2] * M[3], [(M[1], 1), (M[2], 1), (M[3], 1)]), (M[3] * M[4], [(M[3], 1), (M[4], 1)]), (M[0] ** 2 * M[3], [(M[0], 2), (M[3], 1)]),
+                (M[4], [(M[4], 1)]), (M[1] * M[4], [(M[1], 1), (M[4], 1)])]
+        for n, f in mods:
+            for _ in range(kw["count"] // len(mods) + 1):
+                a = rng.choice((2, 3, -1, rng.getrandbits(64), rng.randrange(n), -rng.randrange(n), f[0][0] * 3))
+                want = nt.jacobi_by_factors(a, f)
+                try:
+                    got = NT.jacobi(a, n)
+                except RecursionError:
+                    ctx.count("jacobi_recursion_limit_on_%d_bit_modulus_not_judged" % n.bit_length())      # pre-existing limitation of the recursive algorithm, outside the stated sizes
+                    continue
+                except Exception as e:
+                    ctx.case("jacobi.huge_composite", key="exc")
+                    ctx.violation("jacobi_raises", "jacobi(a, %d-bit composite) raised %s" % (n.bit_length(), type(e).__name__), dict(a=a, n=n))
+                    continue
+                ctx.case("jacobi.huge_composite", key="%d" % n.bit_length(), sample=dict(n_bits=n.bit_length(), factors=[hex(x[0])[:20] for x in f], a=a, result=got) if ctx.want("jacobi.huge_composite") else None)
+                ctx.check(got == want, "jacobi_wrong", "jacobi(a, n) on a %d-bit composite with known factors = %r, product of Legendre symbols %d" % (n.bit_length(), got, want), dict(a=a, n=n))
     elif kind == "jac_worst":
         # consecutive terms of x[k+1] = 2 x[k] + x[k-1] (all odd): the slowest inputs for the Euclid-like recursion, one level per
         # ~1.27 bits; oracle = iterative reference (factorisation unknown).  Also a + k*n (oversized a) and negative a.
